@@ -415,6 +415,8 @@ WITNESS_GRIDS = [(-1, 1, '1/10'), (2, 5, 1), ('-122/100', '127/100', '1/10'), ('
                  ('-105/100', '105/100', '1/10'), (0, 3, '1/2'), ('126/100', '44/10', '1/4'), ('-7/3', '11/7', '1/3'), ('1/10', '9/10', '1/5'), ('-9/10', '-1/10', '1/5'),
                  ('-7/2', '-3/2', 1), ('-7/4', '-3/4', '1/2'), ('3/2', '7/2', 1), ('-5/2', '5/2', 1), ('1/4', '3/4', '1/2'),
                  # the ends of the quantifier: the finest resolution (1e-3) on a short extent, and extents of millions of cells (up to 1e7, coordinates up to 1e3)
+                 # resolutions whose reciprocal is not an integer (bounds that are whole numbers are then not whole numbers of cells)
+                 ('-1', '41/20', '7/20'), ('-3', '3/2', '4/5'), ('-32/5', '52/5', '3/2'), ('-2', '5/2', '3/7'), ('1', '4', '7/10'), ('-5', '-1', '6/5'),
                  ('1/200', '3/100', '1/1000'), ('-600', '600', '1/1000'), ('-1000', '1000', '1/4000'), ('250', '1000', '1/10000')]
 
 
@@ -428,7 +430,7 @@ def _num(e):
     return v if v.is_Rational else None
 
 
-SYMMETRIC_GRIDS = [('-3/100', '3/100', '1/1000'), ('-600', '600', '1/1000'), ('-1', '1', '1/10'), ('-1003/100', '1003/100', '1/10'), ('-11/8', '11/8', 1), ('-17/5', '17/5', 1), ('-35/16', '35/16', '1/2'), ('-3/2', '3/2', '1/4'), ('-27/10', '27/10', 1),
+SYMMETRIC_GRIDS = [('-1', '1', '7/20'), ('-3', '3', '4/5'), ('-2', '2', '3/7'), ('-3/100', '3/100', '1/1000'), ('-600', '600', '1/1000'), ('-1', '1', '1/10'), ('-1003/100', '1003/100', '1/10'), ('-11/8', '11/8', 1), ('-17/5', '17/5', 1), ('-35/16', '35/16', '1/2'), ('-3/2', '3/2', '1/4'), ('-27/10', '27/10', 1),
                    ('-5/2', '5/2', 1), ('-7/4', '7/4', '1/2'), ('-2', '2', '1/3')]
 
 
